@@ -19,10 +19,12 @@ func NewSerial() Workers {
 type SerialJob struct {
 	once sync.Once
 	err  error
+	// done is closed by [Done], once no more tasks will be added
+	done chan struct{}
 }
 
 func (*SerialWorkers) NewJob(_ int) (Job, error) {
-	return &SerialJob{}, nil
+	return &SerialJob{done: make(chan struct{})}, nil
 }
 
 func (*SerialWorkers) Stop() {}
@@ -38,13 +40,17 @@ func (j *SerialJob) Go(f func() error) {
 	}
 }
 
-func (*SerialJob) Done(f func()) {
+func (j *SerialJob) Done(f func()) {
+	close(j.done)
 	if f != nil {
 		f()
 	}
 }
 
+// Wait returns once [Done] has been called (tasks may be added from another
+// goroutine until then) and reports the first error of the job's tasks.
 func (j *SerialJob) Wait() error {
+	<-j.done
 	return j.err
 }
 
